@@ -4,7 +4,8 @@
  *
  * maxdepth: options.max_depth (0 = library default).  prog: `<default>[,<path>:<action>]*`, actions
  * d (descend = return aws_xml_node_traverse), b (body = return aws_xml_node_as_body), s (skip = return 0),
- * a (abort = return aws_raise_error(AWS_ERROR_INVALID_ARGUMENT)); path `/` is the root, `/0/2` the third
+ * a (abort = return aws_raise_error(AWS_ERROR_INVALID_ARGUMENT)), D (descend but ignore a failing aws_xml_node_traverse:
+ * call it, discard the result, return 0); path `/` is the root, `/0/2` the third
  * reported child of the first reported child of the root.
  *
  * The document is copied into an exact-size heap block (ASan red zones on both sides); an empty document
@@ -20,6 +21,7 @@
 #include "h_common.h"
 #include <aws/common/byte_buf.h>
 #include <aws/common/error.h>
+#include <aws/common/private/xml_parser_impl.h>
 #include <aws/common/xml_parser.h>
 #include <sanitizer/common_interface_defs.h>
 #include <fcntl.h>
@@ -231,7 +233,8 @@ static int s_cb(struct aws_xml_node *node, void *ud) {
     if (bad) {
         printf("P MONITOR view-outside-document node\n");
     } else {
-        printf("W views");
+        /* length of the parser's callback stack (what its depth test reads); equals d unless a callback ignored a failure */
+        printf("W stack=%zu views", aws_array_list_length(&node->parser->callback_stack));
         s_put_view(name);
         for (size_t i = 0; i < na; ++i) {
             struct aws_xml_attribute a = aws_xml_node_get_attribute(node, i);
@@ -245,6 +248,10 @@ static int s_cb(struct aws_xml_node *node, void *ud) {
     switch (act) {
         case 'd':
             return aws_xml_node_traverse(node, s_cb, &me);
+        case 'D':
+            /* ignore_traverse_error: descend, discard the return value, report success */
+            (void)aws_xml_node_traverse(node, s_cb, &me);
+            return AWS_OP_SUCCESS;
         case 'b': {
             struct aws_byte_cursor body;
             body.ptr = (uint8_t *)(uintptr_t)1; /* poison: must be overwritten on success */
